@@ -17,6 +17,14 @@ import Proofs.C18Isolation
                                          below AND lies inside a sync.Once.Do literal;
           `ptrcalls_ok`                  every pointer-receiver method called on a package-level variable is
                                          one of a justified list of read-only / internally synchronised methods;
+          `other_calls_ok`, `no_iface_calls`   every interface / value-receiver method selected on a package-level
+                                         variable is allow-listed after reading its body; none is an interface method
+                                         (a package-level hash.Hash / io.Writer used by a decoder would appear here);
+          `call_init_ok`                 every package-level variable initialised by a function call and used in
+                                         function bodies is of an immutable / concurrency-safe type;
+          `guarded_types_ok`, `guarded_uses_ok`   every access outside Once literals to a field of the process-wide
+                                         lock-owning types (interp.Registry, lazyre.RE) is under the lock, at init
+                                         time, or after the accessor's own Once.Do (no unsynchronised fast path);
           `addr_types_ok`, `type_writes_ok`   the only globals whose address escapes are `decode.Group`s,
                                          and the only code in the whole module that assigns a field of a
                                          decode.Group / decode.Format / decode.Dependency / interp.Registry is
